@@ -166,6 +166,12 @@ func execC14entry(x *X) {
 					x.Violate("http-status:"+path, "HTTP %s %s answered with status %d\n  input: %s", method, path, rec.Code, where)
 				}
 				out := bytes.TrimSpace(rec.Body.Bytes())
+				if rec.Code == 200 && (path == "/build" || path == "/verify") {
+					// success must look like success: a built object, or {"ok":true}
+					if v, err := ParseJV(out); err != nil || (path == "/build" && v.Get("$schema") == nil) || (path == "/verify" && v.Get("ok") == nil) {
+						x.Violate("http-200-without-result:"+path, "HTTP %s answered 200 but the body is not a result: %q\n  input: %s", path, trunc(string(out), 200), where)
+					}
+				}
 				if path == "/bulk" {
 					dec := json.NewDecoder(bytes.NewReader(out))
 					for dec.More() {
